@@ -16,6 +16,7 @@ P = "architecture_simulator/"
 RULE_PROP_OVERRIDE = {
     "R01.done": "C13",
 }
+ID_RULE = {"M20_jal_repr": "R14.jal"}
 RULE_RENAME = {
     "R01.done": "R13.done",
     "R01.sign": "R01.sem",
@@ -46,6 +47,7 @@ def _round0() -> list[dict]:
         expect = "fire" if exp == "fire" else "silent"
         prop = RULE_PROP_OVERRIDE.get(rule) or ("C" + rule[1:3])
         rule = RULE_RENAME.get(rule, rule)
+        rule = ID_RULE.get(x["id"], rule)
         out.append({"id": x["id"], "prop": prop, "rule": None if expect == "silent" or rule.endswith("*") else rule,
                     "expect": expect, "file": x["file"], "old": x["old"], "new": x["new"],
                     "pinned_suite": x.get("pinned_suite")})
